@@ -1,0 +1,18 @@
+//go:build verif
+
+package storage
+
+// VerifPoint, when set, is called at the instrumented points below with an
+// event name and, for page events, the page's file offset. It exists only in
+// builds with the `verif` tag and is used by the checks in /verif to observe
+// (and interrupt) log and page writes.
+//
+// Events: wal.len, wal.body, wal.sync, wal.synced (log append);
+// page.write, header.write (data file); page.dirty (a cached page is modified).
+var VerifPoint func(ev string, off uint64)
+
+func verifPoint(ev string, off uint64) {
+	if VerifPoint != nil {
+		VerifPoint(ev, off)
+	}
+}
